@@ -5,8 +5,11 @@ Line-protocol glue for C02.  One request = one complete case (a datatype tree an
 
   {"p":"C02","k":"case","dt":T,"v":V,"fmt":[[pos,bitsIn,bitsBack],..],
    "impl":{"exp":OJ,"node":OV,"client":OV,"cdt":T|null,"text":OT,"back":OV,"again":OT,
-           "cval":OV,"ctext":OT,"cback":OV,"cagain":OT,"sent":OJ,"cnode":OV,"vsent":OJ,"vnode":OV}}
-      (`cval` = the value of the cache entry `updateValue` made; `vsent` = what `setParameter(cval)` sent)
+           "cval":OV,"ctext":OT,"cback":OV,"cagain":OT,"sent":OJ,"cnode":OV,"vsent":OJ,"vnode":OV,
+           "xsent":OJ,"xnode":OV,"xres":OV}}
+      (`cval` = the value of the cache entry `updateValue` made; `vsent` = what `setParameter(cval)` sent; `xsent` = the
+       argument `execCommand(cval)` sent, `xnode` = the node's import of it, `xres` = what `execCommand` returned for a
+       command answering its argument)
       OJ/OV/OT = {"ok": <JSON value / value / text>} | {"err": "<class>"} | null
   → {"wf":b,"valid":b,"canon":b,"complete":b,"model":{…same keys…},"judge":[failed clauses],"b64":b}
 
@@ -226,12 +229,26 @@ def handle (j : Json) : R Json := do
       | some c => bind mcval (fun cv => ofExcept (clientSet c cv))
       | none => none
     let mvnode := bind mvsent (fun jv => ofExcept (importValue dt jv))
+    -- the command call: argument = the cached value; the node's command answers its argument
+    let mxsent := match cdt with
+      | some c => bind mcval (fun cv => ofExcept (clientExecArg c cv))
+      | none => none
+    let mxnode := bind mxsent (fun jv => ofExcept (importValue dt jv))
+    let mxres := match cdt, mxnode with
+      | some c, some (.ok _) => bind mxsent (fun jv => ofExcept (echoCommand dt c jv))
+      | _, _ => none
+    -- an error update (`updateValue(…, readerror)`): `str(entry)` is `repr(readerror)`, whatever the type
+    let rerr := (j.getObjVal? "rerr").toOption.bind (fun x => x.getStr?.toOption)
+    let metext : Option (Out Text) := match cdt, mcval, rerr with
+      | some c, some (.ok _), some r => some (ofOption (CacheItem.str L c ⟨.none, some r⟩))
+      | _, _, _ => none
     -- ---- the implementation, judged ------------------------------------------------------
     let iexp ← io jvalOfJson "exp"; let inode ← io pvalOfJson "node"; let iclient ← io pvalOfJson "client"
     let itext ← io textOfJson "text"; let iback ← io pvalOfJson "back"; let iagain ← io textOfJson "again"
     let icval ← io pvalOfJson "cval"; let ictext ← io textOfJson "ctext"; let icback ← io pvalOfJson "cback"
     let icagain ← io textOfJson "cagain"; let isent ← io jvalOfJson "sent"; let icnode ← io pvalOfJson "cnode"
     let ivsent ← io jvalOfJson "vsent"; let ivnode ← io pvalOfJson "vnode"
+    let ixsent ← io jvalOfJson "xsent"; let ixnode ← io pvalOfJson "xnode"; let ixres ← io pvalOfJson "xres"
     let valid := validB dt v
     let canon := canonB v
     let complete := completeB dt v
@@ -263,7 +280,10 @@ def handle (j : Json) : R Json := do
           | _, _ => []) ++
          (match ivsent with
           | some s => (judgeClientWrite dt (.ok cv) s ivnode).map (fun c => "cset:" ++ (c.drop 7).toString)
-          | none => ["cset:missing"])
+          | none => ["cset:missing"]) ++
+         (match ixsent with
+          | some s => judgeCommand dt cv s ixnode ixres
+          | none => ["cmd:missing"])
        | _, _ => [])
     -- hypothesis `Valid cdt v` of `client_cache_string_write`, decided on the value the implementation's cache holds
     let cvalid : Option Bool := match cdt, icval with
@@ -281,7 +301,9 @@ def handle (j : Json) : R Json := do
         ("ctext", outToJson textToJson mctext), ("cback", outToJson pvalToJson mcback),
         ("cagain", outToJson textToJson mcagain), ("sent", outToJson jvalToJson msent),
         ("cnode", outToJson pvalToJson mcnode), ("vsent", outToJson jvalToJson mvsent),
-        ("vnode", outToJson pvalToJson mvnode)]),
+        ("vnode", outToJson pvalToJson mvnode), ("xsent", outToJson jvalToJson mxsent),
+        ("xnode", outToJson pvalToJson mxnode), ("xres", outToJson pvalToJson mxres),
+        ("etext", outToJson textToJson metext)]),
       ("judge", jstrs verdict), ("b64", .bool b64ok)]
   | _ => throw s!"C02: unknown verb {k}"
 
